@@ -344,3 +344,47 @@ func VH_C15_EXPLAIN(si, n int) {
 	vAssert(vSameRows(r1.rows, r2.rows), "C15/shown-filter-selects-different-rows")
 	vCover("round-trip")
 }
+
+// Shown filters that refer to select fields by name: names that can only be written in back
+// quotes (upper-case letters, reserved words, number words) must be shown in a form that reads
+// back as the same reference.
+var vC15AliasStmts = []string{
+	"select key as `Id`, value where `Id` = 'a'",
+	"select value as `limit`, key where `limit` ^= '1' & key >= ''",
+	"select upper(key) as `in`, value where `in` != 'x' | value = '2'",
+	"select key as k, int(value) as `N1` where `N1` > 0 & k >= ''",
+	"select key as `inf`, value as `Nan` where `inf` >= '' & `Nan` != 'q'",
+	"select key as `order`, value as `By` where `order` + `By` != 'zz'",
+	"select key as lower_name, value where lower_name = 'a'",
+}
+
+func VN_C15_ALIAS(tier int) int { return len(vC15AliasStmts) }
+
+func VH_C15_ALIAS(si, n int) {
+	q := vC15AliasStmts[si]
+	cut := 0
+	for i := 0; i+7 <= len(q); i++ {
+		if q[i:i+7] == " where " {
+			cut = i + 7
+		}
+	}
+	o := NewOptimizer(q)
+	vAssert(o.init() == nil, "harness/C15-ALIAS-rejected")
+	shown := o.filter.Ast.Expr.String()
+	q2 := q[:cut] + shown
+	o2 := NewOptimizer(q2)
+	vAssert(o2.init() == nil, "C15/shown-filter-does-not-parse")
+	vAssert(o2.filter.Ast.Expr.String() == shown, "C15/shown-filter-parses-to-a-different-tree")
+	st := vSymStore(n, 1, 1, 1, 1, "ab", "012")
+	p1, err := NewOptimizer(q).BuildPlan(st.clone())
+	vAssert(err == nil, "harness/C15-ALIAS-plan")
+	r1 := vDrainNext(p1, n+1)
+	p2, err := NewOptimizer(q2).BuildPlan(st.clone())
+	vAssert(err == nil, "C15/shown-filter-rejected-by-the-planner")
+	r2 := vDrainNext(p2, n+1)
+	vAssert((r1.err == nil) == (r2.err == nil), "C15/shown-filter-fails-where-the-statement-runs")
+	if r1.err == nil {
+		vAssert(vSameRows(r1.rows, r2.rows), "C15/shown-filter-selects-different-rows")
+	}
+	vCover("round-trip")
+}
